@@ -1,9 +1,12 @@
 pub mod capi;
 pub mod echo;
+pub mod edit;
 pub mod enc;
 pub mod esc;
 pub mod hash;
 pub mod nsprobe;
+pub mod pass;
+pub mod proto;
 pub mod lex;
 pub mod mem;
 pub mod memrw;
@@ -19,11 +22,15 @@ pub fn find(name: &str) -> Option<LaneFn> {
     Some(match name {
         "capi" => capi::run,
         "echo" => echo::run,
+        "edit" => edit::run,
         "enc" => enc::run,
         "esc" => esc::run,
         "hash" => hash::run,
         "nsprobe" => nsprobe::run,
+        "pass" => pass::run_lane,
+        "proto" => proto::run,
         "lex" => lex::run,
+        "fault" => lex::run_fault,
         "mem" => mem::run,
         "memrw" => memrw::run,
         "memts" => memts::run,
